@@ -136,6 +136,32 @@ def same_bind_projection(a, b):
 
 # --------------------------------------------------------------------- runners
 
+def crashed(res, out, rc, log, pid):
+    """The harness did not finish (the implementation hung, crashed the process with a fatal error, or the
+    harness itself failed): whatever the watchdog recorded is kept; the rest is a correspondence break."""
+    if rc == 0 and os.path.exists(os.path.join(out, "stats.json")):
+        return False
+    viols = []
+    p = os.path.join(out, "oracle.jsonl")
+    if os.path.exists(p):
+        for l in open(p):
+            try:
+                viols.append(json.loads(l))
+            except ValueError:
+                pass
+    fatal = "fatal error" in log or "stack overflow" in log or rc == 4
+    for v in viols:
+        if v.get("property") == pid or (pid == "C18" and v.get("property") == "C18"):
+            res["failing"].append(v)
+    if pid == "C18" and fatal and not res["failing"]:
+        res["failing"].append({"property": "C18", "oracle": "process-died-or-hung", "detail": log[-800:]})
+    res["diffs"].append({"correspondence": "harness run did not complete (exit %d): the implementation hung or crashed the process" % rc,
+                         "log_tail": log[-800:], "watchdog": viols[:3]})
+    res["coverage"] = {"evaluations": 1, "distinct_nontrivial": 0, "programs": 1, "disagreements_checked": 0,
+                       "rule": "run aborted", "samples": ["<harness run aborted>"]}
+    return True
+
+
 def run_bind(ctx, pid, run, idx, replay, BUILD, ROOT):
     out = os.path.join(ctx.rundir, "bind%d" % idx)
     os.makedirs(out, exist_ok=True)
@@ -145,8 +171,7 @@ def run_bind(ctx, pid, run, idx, replay, BUILD, ROOT):
         cmd += ["-replay", replay]
     rc, log = sh(cmd, timeout=3600)
     res = {"failing": [], "diffs": [], "coverage": {}}
-    if rc not in (0, 4):
-        res["diffs"].append({"correspondence": "bind", "error": "harness failed: " + log[-500:]})
+    if crashed(res, out, rc, log, pid):
         return res
     with open(os.path.join(out, "cases.txt")) as f:
         cases = f.read()
@@ -193,8 +218,7 @@ def run_iter(ctx, pid, run, idx, replay, BUILD, ROOT):
            "-exhaustive", str(run.get("exhaustive", {}).get(ctx.tier, 0))]
     rc, log = sh(cmd, timeout=3600)
     res = {"failing": [], "diffs": [], "coverage": {}}
-    if rc not in (0, 4):
-        res["diffs"].append({"correspondence": "iter", "error": "harness failed: " + log[-500:]})
+    if crashed(res, out, rc, log, pid):
         return res
     with open(os.path.join(out, "cases.txt")) as f:
         cases = f.read()
@@ -239,8 +263,7 @@ def run_cache(ctx, pid, run, idx, replay, BUILD, ROOT):
            "-stress", str(run["stress"][ctx.tier])]
     rc, log = sh(cmd, timeout=7200)
     res = {"failing": [], "diffs": [], "coverage": {}}
-    if rc not in (0, 4):
-        res["diffs"].append({"correspondence": "cache", "error": "harness failed: " + log[-500:]})
+    if crashed(res, out, rc, log, pid):
         return res
     with open(os.path.join(out, "cases.txt")) as f:
         cases = f.read()
@@ -275,6 +298,53 @@ def run_cache(ctx, pid, run, idx, replay, BUILD, ROOT):
         "exhaustive": False,
     }
     return res
+
+
+def run_tx(ctx, pid, run, idx, replay, BUILD, ROOT):
+    out = os.path.join(ctx.rundir, "tx%d" % idx)
+    os.makedirs(out, exist_ok=True)
+    cmd = [os.path.join(BUILD, "harness"), "tx", "-seed", str(ctx.seed + 1000 * idx), "-n", str(run["n"][ctx.tier]),
+           "-out", out, "-races", str(run["races"][ctx.tier])]
+    rc, log = sh(cmd, timeout=7200)
+    res = {"failing": [], "diffs": [], "coverage": {}}
+    if crashed(res, out, rc, log, pid):
+        return res
+    with open(os.path.join(out, "cases.txt")) as f:
+        cases = f.read()
+    rc, model = sh([os.path.join(BUILD, "modelrun")], inp=cases, timeout=3600)
+    open(os.path.join(out, "model.txt"), "w").write(model)
+    impl = open(os.path.join(out, "impl.txt")).read().splitlines()
+    model = model.splitlines()
+    cl = cases.splitlines()
+    ndiff = 0
+    if run.get("compare", True):
+        for i in range(min(len(impl), len(model))):
+            if impl[i] != model[i]:
+                ndiff += 1
+                if len(res["diffs"]) < 20:
+                    res["diffs"].append({"correspondence": "TX model (coq/Model/Tx.v) vs sqlair.go TX on database/sql (sequential histories)",
+                                         "case": cl[i], "implementation": impl[i], "model": model[i]})
+    for l in open(os.path.join(out, "oracle.jsonl")):
+        v = json.loads(l)
+        if v["property"] in run.get("oracle_props", [pid]):
+            v["layer"] = "tx"
+            v["case"] = bytes.fromhex(v["query_hex"][1:]).decode()
+            res["failing"].append(v)
+    st = json.load(open(os.path.join(out, "stats.json")))
+    res["coverage"] = {
+        "evaluations": st["cases"] + st["finisher_races"], "distinct_nontrivial": st["distinct_nontrivial"],
+        "programs": st["cases"], "disagreements_checked": ndiff,
+        "rule": TX_RULE, "samples": st["samples"][:5],
+        "input_distribution": {"op_kinds": st["op_kinds"], "finisher_races": st["finisher_races"]},
+        "exhaustive": False,
+    }
+    return res
+
+
+TX_RULE = ("sequential TX histories (tx.Query on statements cached on the DB or not, with and without outputs; run; Commit; Rollback; "
+           "queries built before and run after the end) compared with the model per op (execution on the transaction's connection, "
+           "ErrTXDone, finish events), plus races of 2-6 concurrent Commit/Rollback calls and runs released together, checked by "
+           "oracles on the driver log; non-trivial iff distinct and more than 2 ops")
 
 
 CACHE_RULE = ("sequential histories over <=3 Statements x <=3 DBs x 3 argument shapes x 4 contexts: run, open iterator, drop Query, "
@@ -337,10 +407,7 @@ def run_parse(ctx, pid, run, idx, replay, BUILD, ROOT):
         cmd += ["-replay", replay]
     rc, log = sh(cmd, timeout=3600)
     res = {"failing": [], "diffs": [], "coverage": {}}
-    if rc == 4:  # hang detected by the watchdog
-        pass
-    elif rc != 0:
-        res["diffs"].append({"correspondence": "parser", "error": "harness failed: " + log[-500:]})
+    if crashed(res, out, rc, log, pid):
         return res
     with open(os.path.join(out, "cases.txt")) as f:
         cases = f.read()
@@ -378,7 +445,7 @@ def run_parse(ctx, pid, run, idx, replay, BUILD, ROOT):
     return res
 
 
-RUNNERS = {"parse": run_parse, "bind": run_bind, "iter": run_iter, "cache": run_cache}
+RUNNERS = {"parse": run_parse, "bind": run_bind, "iter": run_iter, "cache": run_cache, "tx": run_tx}
 
 
 def merge(a, b):
@@ -444,17 +511,23 @@ def cache_run_spec(project, oracle_props, nq=250, nt=20000):
             "project": project, "oracle_props": oracle_props}
 
 
+def tx_run_spec(oracle_props, compare=True, nq=400, nt=40000):
+    return {"kind": "tx", "n": {"quick": nq, "thorough": nt}, "races": {"quick": 100, "thorough": 5000},
+            "oracle_props": oracle_props, "compare": compare}
+
+
 PROPS = {
-    "C09": {"runs": [cache_run_spec(proj_cache_events, ["C09"])]},
+    "C12": {"runs": [tx_run_spec(["C12"])]},
+    "C09": {"runs": [cache_run_spec(proj_cache_events, ["C09"]), tx_run_spec(["C09", "C12"], compare=False, nq=200)]},
     "C10": {"runs": [cache_run_spec(proj_cache_full, ["C10"])]},
     "C11": {"runs": [cache_run_spec(proj_cache_full, ["C11"])]},
-    "C20": {"runs": [cache_run_spec(proj_cache_events, ["C20"])]},
+    "C20": {"runs": [cache_run_spec(proj_cache_events, ["C20"]), tx_run_spec(["C20"], compare=True, nq=200)]},
     "C13": {"runs": [iter_run_spec(proj_iter_account, ["C13"])]},
     "C14": {"runs": [iter_run_spec(proj_iter_full, ["C14"])]},
     "C15": {"runs": [iter_run_spec(proj_iter_c15, ["C15"])]},
     "C03": {"uses_genconsts": True, "runs": [bind_run(proj_bind_c03, ["C03"])]},
     "C04": {"uses_genconsts": True, "runs": [bind_run(proj_bind_c04, ["C04"])]},
-    "C05": {"uses_genconsts": True, "runs": [bind_run(proj_bind_c05, ["C05"])]},
+    "C05": {"uses_genconsts": True, "runs": [bind_run(proj_bind_c05, ["C05"]), tx_run_spec(["C05"], compare=True, nq=200)]},
     "C07": {"uses_genconsts": True, "runs": [bind_run(proj_bind_c07, ["C07"])]},
     "C08": {"uses_genconsts": True, "runs": [bind_run(proj_bind_c08, ["C08"])]},
     "C01": {
